@@ -115,6 +115,7 @@ def main(argv=None):
     try:
         common.quiet()
         check_artap_location()
+        import artap.operators, artap.archive, artap.problem, artap.algorithm  # noqa: F401,E401 (before workers fork)
         mod = importlib.import_module("mc.checks.%s" % pid.lower())
         if a.replay:
             data = json.load(open(a.replay))
